@@ -41,6 +41,9 @@ RULE = (
     "evenly or unevenly spaced. Extra coordinates (height, time) with NaN / +-inf at points whose easting/northing are finite, border "
     "points of the cloud and k = n included, for fit, predict queries, median_distance and distance_mask data/queries; each such call is "
     "twinned with the two-coordinate call and tree_.n / data_.size / region_ are checked against ALL points. "
+    "Serialisation histories: fitted estimators through pickle (all protocols), copy.deepcopy, copy.copy and copies of copies, judged "
+    "against the original's fitted points, the original re-used after being copied. Large cases: median_distance with n*(k+1) >= 2e6 "
+    "(brute force on a subsample that contains the first and the very last points) and predict on more than 131072 points. "
     "KNeighbors: k in {1,2,3,n-1,n,random}, reductions mean/median/min/max (+sum/ptp), data values unique per point, queries inside, "
     "outside and on the data, direct predict and nested through grid/scatter/profile/Chain/project_grid. median_distance: k=1..n-1. "
     "distance_mask: maxdist from the quantiles of the true nearest distances (also 0, huge, exactly a realised distance), array form "
@@ -61,11 +64,14 @@ ASSUMPTIONS = [
     "which of two equidistant neighbours KNeighbors uses is not specified: tied queries stay either-way",
     "the projection callables are pure functions (the oracle calls them itself on copies of the raveled inputs)",
     "containers are read positionally (np.asarray / np.ravel of each argument, as verde documents): element i of the data belongs to point i whatever the index labels say",
+    "a pickled / copied estimator is judged against the fit observed on the object it was made from (lineage declared by the workload)",
+    "median_distance on more than 3000 points is judged by brute force on a subsample of a few hundred points (first 40, last 120, chunk borders, random); every value must be finite",
     "the fitted points/data are the arguments observed at KNeighbors.fit (C-order element sequence), predictions of estimators whose fit was not observed are skipped",
     "easting and northing of a request have equal shapes (broadcasting unequal shapes is not promised)",
 ]
 FLOORS = {
-    # about 40 percent of the smallest value seen on the unchanged tree over seeds 0..9 (thorough = 15 x the quick workload)
+    # about 40 percent of the smallest value seen on the unchanged tree over seeds 0..9 (thorough = 15 x the quick workload,
+    # except the few 'large' cases whose number is fixed per tier)
     "quick": {
         "eval:KNeighbors.predict": 1700, "eval:median_distance": 360, "eval:distance_mask.array": 510,
         "eval:distance_mask.grid": 430, "distinct_nontrivial": 2300, "knn_queries_decided": 85000, "mask_cells_decided": 165000,
@@ -120,7 +126,11 @@ FLOORS = {
         "class:knn_fit_extra_non_finite_at_a_border_point_of_the_cloud": 85,
         "class:knn_k=n_after_fit_with_non_finite_extras": 90, "class:knn_query_extra_coordinate_non_finite": 118,
         "class:median_extra_coordinate_non_finite": 47, "class:mask_data_extra_coordinate_non_finite": 28,
-        "class:mask_query_extra_coordinate_non_finite": 5,
+        "class:mask_query_extra_coordinate_non_finite": 5, "eval:KNeighbors.copy_attributes": 92,
+        "eval:KNeighbors.original_unaffected_by_copy": 72, "class:knn_predict_on_copy_made_by_pickle": 24,
+        "class:knn_predict_on_copy_made_by_deepcopy": 24, "class:knn_predict_on_copy_made_by_copy": 24,
+        "copies:copy_refitted_then_original_used": 7, "class:knn_predict_on_more_than_131072_points": 1,
+        "class:median_points_times_k_plus_1_at_least_2e6": 1, "median_large_rows_judged": 160,
     },
     "thorough": {
         "eval:KNeighbors.predict": 25500, "eval:median_distance": 5400, "eval:distance_mask.array": 7650,
@@ -178,20 +188,25 @@ FLOORS = {
         "class:knn_fit_extra_non_finite_at_a_border_point_of_the_cloud": 1275,
         "class:knn_k=n_after_fit_with_non_finite_extras": 1350, "class:knn_query_extra_coordinate_non_finite": 1770,
         "class:median_extra_coordinate_non_finite": 705, "class:mask_data_extra_coordinate_non_finite": 420,
-        "class:mask_query_extra_coordinate_non_finite": 75,
+        "class:mask_query_extra_coordinate_non_finite": 75, "eval:KNeighbors.copy_attributes": 1380,
+        "eval:KNeighbors.original_unaffected_by_copy": 1080, "class:knn_predict_on_copy_made_by_pickle": 360,
+        "class:knn_predict_on_copy_made_by_deepcopy": 360, "class:knn_predict_on_copy_made_by_copy": 360,
+        "copies:copy_refitted_then_original_used": 105, "class:knn_predict_on_more_than_131072_points": 5,
+        "class:median_points_times_k_plus_1_at_least_2e6": 5, "median_large_rows_judged": 1500,
     },
 }
 JOBS = {"quick": 1, "thorough": 8}
 CASE_TIMEOUT_S = 120
 
+COPY_OF = weakref.WeakKeyDictionary()  # restored / copied estimator -> (the estimator it was made from, how)
 TIE_REL = 1e-9
 EPS = ref.EPS
 
 
 def plan(tier):
     if tier == "quick":
-        return collections.OrderedDict(knn=360, knn_nested=60, median=300, mask=300, mask_grid=300, mask_exact=200)
-    return collections.OrderedDict(knn=5400, knn_nested=900, median=4500, mask=4500, mask_grid=4500, mask_exact=3000)
+        return collections.OrderedDict(knn=360, knn_nested=60, median=300, mask=300, mask_grid=300, mask_exact=200, knn_copies=60, large=2)
+    return collections.OrderedDict(knn=5400, knn_nested=900, median=4500, mask=4500, mask_grid=4500, mask_exact=3000, knn_copies=900, large=16)
 
 
 # ----------------------------------------------------------------------
@@ -284,6 +299,29 @@ def _flat(arr):
 
 def distance_matrix(qx, qy, px, py):
     return np.hypot(qx[:, None] - px[None, :], qy[:, None] - py[None, :])
+
+
+def nearest_sorted(qx, qy, px, py, kk, chunk=3_000_000):
+    """
+    For every query the indices and distances of its kk nearest points, nearest first (chunked O(n*m) brute force:
+    a full distance row per query, argpartition + sort of the kk smallest).
+    """
+    m, n = qx.size, px.size
+    kk = min(kk, n)
+    order = np.empty((m, kk), dtype=np.intp)
+    srt = np.empty((m, kk))
+    step = max(1, chunk // max(n, 1))
+    for lo in range(0, m, step):
+        dist = distance_matrix(qx[lo:lo + step], qy[lo:lo + step], px, py)
+        if kk < n:
+            part = np.argpartition(dist, kk - 1, axis=1)[:, :kk]
+        else:
+            part = np.broadcast_to(np.arange(n), dist.shape)
+        dpart = np.take_along_axis(dist, part, axis=1)
+        inner = np.argsort(dpart, axis=1, kind="stable")
+        order[lo:lo + step] = np.take_along_axis(part, inner, axis=1)
+        srt[lo:lo + step] = np.take_along_axis(dpart, inner, axis=1)
+    return order, srt
 
 
 def nearest_distance(qx, qy, px, py, chunk=200_000):
@@ -534,9 +572,31 @@ def install(tap, run):
         a = ev.args
         est = a["self"]
         snap = fitted.get(est)
+        made_by = None
+        origin = est
+        while snap is None and origin in COPY_OF:
+            # a pickled / copied estimator: it must predict from the points and data its original was fitted on
+            origin, how, params = COPY_OF[origin]
+            if made_by is None:
+                made_by, params_wanted = how, params
+            snap = fitted.get(origin)
         if snap is None:
             run.count("skipped:predict_without_observed_fit")
             return
+        if made_by:
+            run.count("class:knn_predict_on_copy_made_by_" + made_by)
+            run.evaluated("KNeighbors.copy_attributes")
+            try:
+                have = (int(est.tree_.n), int(np.size(est.data_)), bool(np.array_equal(np.asarray(est.data_).ravel(), snap["data"])),
+                        est.get_params() == params_wanted)
+            except Exception as exc:  # noqa: BLE001
+                have = repr(exc)
+            if have != (snap["x"].size, snap["x"].size, True, True):
+                run.violation("KNeighbors.copy_attributes",
+                              "estimator restored by %s: (tree_.n, data_.size, data_ equals the fitted data, parameters equal the original's) = %r "
+                              "for %d fitted points and parameters %r" % (made_by, have, snap["x"].size, params_wanted),
+                              {"made_by": made_by, "have": repr(have), "fit_data": snap["data"], "parameters": repr(params_wanted)},
+                              key="copy:attributes")
         try:
             coords = a["coordinates"]
             q0, q1 = np.asarray(coords[0], dtype="float64"), np.asarray(coords[1], dtype="float64")
@@ -585,9 +645,10 @@ def install(tap, run):
             return
         if qx.size == 0:
             return
-        dist = distance_matrix(qx, qy, px, py)
-        order = np.argsort(dist, axis=1, kind="stable")
-        srt = np.take_along_axis(dist, order, axis=1)
+        order, srt = nearest_sorted(qx, qy, px, py, k + 1)
+        if qx.size > 131072:
+            run.count("class:knn_predict_on_more_than_131072_points")
+        run.observe_max("largest_knn_query_count", qx.size)
         scale = max(float(np.ptp(np.concatenate([px, qx]))), float(np.ptp(np.concatenate([py, qy]))))
         tie_margin = TIE_REL * scale + 16 * EPS * _maxabs(px, py, qx, qy) + np.finfo("float64").tiny
         decided = np.ones(qx.size, dtype=bool) if k == n else (srt[:, k] - srt[:, k - 1]) >= tie_margin
@@ -676,6 +737,42 @@ def install(tap, run):
         if not isinstance(res, np.ndarray) or res.shape != c0.shape:
             run.violation("median_distance", "result has shape %s for coordinate arrays of shape %s"
                           % (getattr(res, "shape", type(res).__name__), c0.shape), dict(witness, result=res), key="median:shape")
+            return
+        run.observe_max("largest_median_distance_points_times_k_plus_1", n * (k + 1))
+        if n > 3000:
+            # large input: every value must be finite and positive-or-zero; brute force (one full distance row per point) on a
+            # subsample: the first and the very last points, points around multiples of 2e6/(k+1) and random ones
+            run.count("class:median_large_input_judged_on_a_subsample")
+            if n * (k + 1) >= 2_000_000:
+                run.count("class:median_points_times_k_plus_1_at_least_2e6")
+            got_all = res.ravel().astype("float64")
+            if not np.all(np.isfinite(got_all)) or np.any(got_all < 0):
+                j = int(np.flatnonzero(~np.isfinite(got_all) | (got_all < 0))[0])
+                run.violation("median_distance", "point %d of %d: result %r is not a finite distance" % (j, n, float(got_all[j])),
+                              {"k_nearest": k, "n_points": n, "point_index": j}, key="median:large:nonfinite")
+                return
+            sub_rng = np.random.default_rng(n * 7919 + k)
+            step = max(1, 2_000_000 // (k + 1))
+            marks = np.concatenate([np.arange(0, 40), np.arange(n - 120, n), sub_rng.integers(0, n, 240)] +
+                                   [np.arange(max(b - 10, 0), min(b + 10, n)) for b in range(step, n, step)])
+            rows = np.unique(marks[(marks >= 0) & (marks < n)])
+            expected = np.empty(rows.size)
+            for lo in range(0, rows.size, 25):
+                sel = rows[lo:lo + 25]
+                dist = distance_matrix(px[sel], py[sel], px, py)
+                dist[np.arange(sel.size), sel] = np.inf
+                expected[lo:lo + 25] = _median_rows(np.partition(dist, k - 1, axis=1)[:, :k])
+            tol = 16 * EPS * _maxabs(px, py) + 8 * EPS * expected + np.finfo("float64").tiny
+            err = np.abs(got_all[rows] - expected)
+            run.count("median_large_rows_judged", int(rows.size))
+            bad = ~(err <= tol)
+            if bad.any():
+                j = int(rows[np.flatnonzero(bad)[0]])
+                run.violation("median_distance",
+                              "point %d of %d (%r, %r): got %r, the median distance to its %d nearest other points is %r (%d of %d judged points differ)"
+                              % (j, n, float(x[j]), float(y[j]), float(got_all[j]), k, float(expected[np.flatnonzero(bad)[0]]), int(bad.sum()), rows.size),
+                              {"k_nearest": k, "n_points": n, "point_index": j, "judged_rows": rows}, key="median:large:value")
+            run.mark_nontrivial("median_large", n, k, float(px[0]), float(py[-1]))
             return
         dist = distance_matrix(px, py, px, py)
         with_self = np.sort(dist, axis=1)[:, :k]
@@ -1532,6 +1629,87 @@ def _mask_exact_case(run, verde, rng):
                               "cells_at_exactly_maxdist": int((perfect & (root == maxdist)).sum())})
 
 
+def _knn_copies_case(run, verde, rng):
+    """
+    Serialisation histories: a fitted KNeighbors goes through pickle, copy.deepcopy and copy.copy (also a copy of a copy);
+    every restored object must predict like the original (brute force on the original's fitted points), and the original
+    must be unaffected by having been copied.
+    """
+    import copy
+    import pickle
+
+    n = max(_n_points(rng), 2)
+    east, north = gen.cloud(rng, n)
+    data = _unique_data(rng, n)
+    k = 1 if rng.random() < 0.35 else max(2, _k_choice(rng, n)) if n > 1 else 1
+    k = min(k, n)
+    reduction = REDUCTIONS[int(rng.integers(0, len(REDUCTIONS)))]
+    (east_in, north_in, data_in), _ = _present(rng, [east, north, data])
+    est = verde.KNeighbors(k=k, reduction=reduction).fit((east_in, north_in), data_in)
+    query, _ = _present(rng, list(_queries(rng, east, north)), allow_0d=True)
+    first = est.predict(query)
+    data_before, params_before = np.array(est.data_, copy=True), dict(est.get_params())
+    makers = [("pickle", lambda g: pickle.loads(pickle.dumps(g, protocol=int(rng.integers(2, pickle.HIGHEST_PROTOCOL + 1))))),
+              ("deepcopy", copy.deepcopy), ("copy", copy.copy)]
+    order = [makers[int(j)] for j in rng.permutation(3)]
+    clones = []
+    for name, make in order:
+        clone = make(est)
+        COPY_OF[clone] = (est, name, dict(est.get_params()))
+        clones.append(clone)
+        clone.predict(query)
+        if rng.random() < 0.3:  # second generation: a copy of the restored object
+            name2, make2 = makers[int(rng.integers(0, 3))]
+            grandchild = make2(clone)
+            COPY_OF[grandchild] = (clone, name + "_then_" + name2, dict(clone.get_params()))
+            grandchild.predict(_present(rng, list(_queries(rng, east, north)))[0])
+            clones.append(grandchild)
+        again = est.predict(query)  # the original after having been copied: judged by the monitor like any prediction
+        run.evaluated("KNeighbors.original_unaffected_by_copy")
+        if not (np.array_equal(np.asarray(again), np.asarray(first)) and np.array_equal(est.data_, data_before)
+                and est.get_params() == params_before and int(est.tree_.n) == n):
+            run.violation("KNeighbors.original_unaffected_by_copy", "the original estimator changed after %s" % name,
+                          {"made_by": name, "prediction_before": first, "prediction_after": again, "data_before": data_before,
+                           "data_after": np.asarray(est.data_)}, key="copy:original_changed")
+    if rng.random() < 0.35:
+        # the copy gets a life of its own (refit on other data, other k): the original must not follow
+        clone = clones[int(rng.integers(0, len(clones)))]
+        east2, north2 = gen.cloud(rng, max(n, 3))
+        clone.set_params(k=_k_choice(rng, east2.size))
+        clone.fit((east2, north2), _unique_data(rng, east2.size))
+        clone.predict(_queries(rng, east2, north2, 15))
+        est.predict(query)
+        run.count("copies:copy_refitted_then_original_used")
+    run.sample("knn_copies", {"n_points": n, "k": k, "reduction": reduction.__name__, "made_by": [name for name, _ in order],
+                              "prediction": first})
+
+
+def _large_case(run, verde, rng, index):
+    """Large counts judged by brute force instead of by the absence of an exception."""
+    if index % 2 == 0:
+        # median_distance with n_points * (k_nearest + 1) >= 2e6 (the last points are among the judged subsample)
+        k = int(rng.choice([24, 24, 19, 30]))
+        n = 120_011 if index == 0 else int(2_000_000 // (k + 1) + rng.integers(1, 40_000))
+        east, north = rng.uniform(0, 1000, n) + 5000.0, rng.uniform(0, 700, n) - 200.0
+        out = verde.median_distance((east, north), k_nearest=k)
+        run.sample("large_median", {"n_points": n, "k_nearest": k, "last_values": out[-3:]})
+    else:
+        # KNeighbors.predict on more than 131072 points
+        n = int(rng.integers(60, 160))
+        east, north = gen.cloud(rng, n, scale=1000.0, offset_factor=1.0)
+        data = _unique_data(rng, n)
+        k = 1 if index == 1 or rng.random() < 0.6 else int(rng.integers(2, 5))
+        reduction = REDUCTIONS[int(rng.integers(0, 5))]
+        est = verde.KNeighbors(k=k, reduction=reduction).fit((east, north), data)
+        m = 131072 + int(rng.integers(1, 6000))
+        qx = rng.uniform(east.min(), east.max(), m)
+        qy = rng.uniform(north.min(), north.max(), m)
+        if rng.random() < 0.4 and m % 4 == 0:
+            qx, qy = qx.reshape(4, -1), qy.reshape(4, -1)
+        out = est.predict((qx, qy))
+        run.sample("large_predict", {"n_data": n, "k": k, "reduction": reduction.__name__, "n_queries": m, "last_values": np.ravel(out)[-3:]})
+
+
 def run_case(run, tap, stream, index, rng):
     import verde
 
@@ -1548,6 +1726,10 @@ def run_case(run, tap, stream, index, rng):
         _mask_grid_case(run, verde, rng)
     elif stream == "mask_exact":
         _mask_exact_case(run, verde, rng)
+    elif stream == "knn_copies":
+        _knn_copies_case(run, verde, rng)
+    elif stream == "large":
+        _large_case(run, verde, rng, index)
     else:
         raise ValueError(stream)
 
